@@ -149,7 +149,9 @@ def _resolve_module_name(ref: str, module: str | None) -> str | None:
     # Harder path, find the actual object in the stack frame, if possible.
     obj = frames.extract(ref)
     module = getattr(obj, "__module__", None)
-    if module:
+    # The object's own module only helps if the name is actually bound there:
+    #   `Alias = list[int]` lives in the caller's module, not in `builtins`.
+    if module and hasattr(sys.modules.get(module), ref):
         return module
     # Tricky path, get the caller and get the module name of the caller.
     caller = frames.getcaller()
